@@ -463,4 +463,6 @@ def r9(ctx):
 
 EXPLANATION = EXPLANATION + " (R9) every Router builds its own route table and per-method lists in __init__ (fresh literals / constructor calls, no shared class- or module-level object, no shallow copy) and nobody rebinds it."
 
+EXPLANATION = EXPLANATION + ' (R5, as built) every route handed to registerRoutes enters the table or the call raises (the store is controlled by the loop alone or by tests whose other side raises); the evaluation of getRoute treats generator expressions lazily, so which patterns are tried and in which order is observed exactly.'
+
 RULES = [("C16.R1", r1), ("C16.R2", r2), ("C16.R3", r3), ("C16.R4", r4), ("C16.R5", r5), ("C16.R6", r6), ("C16.R7", r7), ("C16.R8", r_idioms), ("C16.R9", r9)]
